@@ -18,6 +18,19 @@ func generate(p *ragen.Program) cli.Result {
 	return cli.Run(cli.Opt{Dir: sb.Root, Stdin: p.MainText(), Timeout: 30 * time.Second}, "-d", sb.Path("crs"), "regex", "generate", "-")
 }
 
+// generateFile runs `regex generate 942999` with the program stored as regex-assembly/942999.ra: the
+// file variant of the command must print what the stdin variant prints for the same bytes.
+func generateFile(p *ragen.Program) cli.Result {
+	sb := cli.NewSandbox("genf")
+	defer sb.Close()
+	tree := cli.Tree(p.Tree())
+	tree["regex-assembly/942999.ra"] = p.MainText()
+	if err := tree.Write(sb.Path("crs")); err != nil {
+		panic(err)
+	}
+	return cli.Run(cli.Opt{Dir: sb.Root, Timeout: 30 * time.Second}, "-d", sb.Path("crs"), "regex", "generate", "942999")
+}
+
 // generateText runs generate on raw stdin text with the given tree below crs/.
 func generateText(tree map[string]string, stdin string) cli.Result {
 	sb := cli.NewSandbox("gen")
